@@ -784,6 +784,28 @@ func (g *disGen) listing(maxFuncs, maxSites, noise int) []string {
 			}
 			g.sites++
 		}
+		if rng.Intn(60) == 0 {
+			// well-formed lines that are merely long (below the scanner's 64 KiB limit): a marker with a very long
+			// symbol between an unconsumed number and a site that loads none, and a site on a long line
+			g.tag("listing:long-marker-or-site-line")
+			n := []int{4090, 4097, 5000, 9000, 30000, 65000}[rng.Intn(6)]
+			if rng.Intn(2) == 0 {
+				lines = append(lines, g.ins(fmt.Sprintf("MOVQ $%s, 0(SP)", g.numText())))
+			} else {
+				lines = append(lines, g.ins(fmt.Sprintf("MOVL $%s, AX", g.numText())))
+			}
+			lines = append(lines, "TEXT main."+strings.Repeat("f", n)+"(SB) /src/long.go")
+			if rng.Intn(2) == 0 {
+				lines = append(lines, g.ins("CALL "+g.pick(disCallees)))
+			} else {
+				lines = append(lines, g.ins(g.rawIns()))
+			}
+			g.sites++
+			// a complete site whose last line is long (a long source path)
+			lines = append(lines, g.ins(fmt.Sprintf("MOVL $%s, AX", g.numText())))
+			lines = append(lines, fmt.Sprintf("  /src/%s/f.go:7\t0x4a0000\t\t0f05\t\tSYSCALL\t", strings.Repeat("d", n)))
+			g.sites++
+		}
 		ns := rng.Intn(maxSites + 1)
 		if ns == 0 {
 			lines = append(lines, g.fillers(4)...)
